@@ -11,7 +11,8 @@ CHECKS = {
         'tdda/constraints/base(constraints).py is executed symbolically (all paths, no bound) against an '
         'iff-postcondition taken from the documented meaning of its constraint kind; every obligation must be '
         'discharged by z3 (cvc5 second opinion). pandas/SQL calculators enter through assumed contracts that the '
-        'bounded layer audits on real frames.',
+        'bounded layer audits on real frames. The two fuzzy comparators are additionally proved, without treating floats as reals, to accept every value that satisfies the bound exactly whatever the rounded fuzzed threshold is. '
+        'Refuted verifier / discoverer obligations are replayed natively: the counter-model is turned into a pandas frame and run through the real code.',
    note='Trusted: A-calc calculator contracts, A-card/A-pigeonhole counting axioms, FP-REAL (floats as reals), '
         'pyvc encoding of the Python subset, z3/cvc5. The aggregation in base.verify is proved too (nested loop invariants: per-field and '
         'total counts equal the number of true / false verdicts); the tabular forms (to_frame, str) are covered by the bounded layer only.',
@@ -79,7 +80,9 @@ CHECKS['C19'] = dict(
 
 CHECKS['C04'] = dict(
    category='other',
-   text='Mixed. Proved on the real checkfiles.py: normalize_function selects exactly the requested stripping; can_ignore holds '
+   text='Mixed. Proved on the real checkfiles.py: check_for_permutation_failures reports no failure exactly when the differing actual lines are a rearrangement (same multiset) of the expected ones (<= 3 cases, symbolic contents); '
+        'wrong_number reports at least one difference whenever it is reached with a non-empty side (texts whose line counts differ after removal never pass; lists of any length); '
+        'normalize_function selects exactly the requested stripping; can_ignore holds '
         'iff the reference line contains an ignore-substring or the lines are pattern-equivalent (loop invariant over the substring '
         'list; check_patterns uninterpreted). The verdict of check_strings and of the three entry points is decided by the bounded '
         'layer (labelled): an independent statement of the comparison rule (removal, stripping, substring/pattern excuses by dynamic '
